@@ -28,7 +28,7 @@ class WorldGen:
         if schema is not None:
             self._collect_alts(schema)
         self.spherical = rng.random() < 0.4 if spherical is None else spherical
-        self.allow = allow or ["continental plate", "oceanic plate", "mantle layer", "plume"]
+        self.allow = allow or (["continental plate", "oceanic plate", "mantle layer", "plume"] + (["subducting plate", "fault"] * 2 if with_lines else []))
         self.max_features = max_features
         self.with_surfaces = with_surfaces
         self.with_random = with_random
@@ -339,6 +339,150 @@ class WorldGen:
             if val or self.rng.random() < 0.2:
                 f[k] = val
 
+
+    # ---- line features ---------------------------------------------------------------
+    def line_models(self, kind, level):
+        """model lists for a slab / fault at one level (feature, section or segment); keys omitted at random"""
+        r = self.rng
+        fault = kind == "fault"
+        dk = "fault center" if fault else "slab top"
+        out = {}
+        def rng_keys(m, allow_max=True):
+            self.maybe(m, "min distance " + dk, r.choice([0, 0, 5e3, -10e3] if not fault else [0, 0, 5e3]), 0.4)
+            if allow_max:
+                self.maybe(m, "max distance " + dk, r.choice([20e3, 50e3, 100e3, 150e3]), 0.6)
+        if r.random() < 0.6:
+            ms = []
+            for _ in range(r.choice([1, 1, 2])):
+                name = r.choice(["uniform", "linear", "adiabatic"])
+                m = {"model": name}
+                self.meta["models"].append(kind + "/T/" + name)
+                rng_keys(m)
+                self.op(m)
+                if name == "uniform":
+                    m["temperature"] = self.temperature()
+                elif name == "linear":
+                    m["max distance " + dk] = r.choice([20e3, 50e3, 100e3, 150e3])
+                    if fault:
+                        self.maybe(m, "center temperature", self.temperature()); self.maybe(m, "side temperature", self.temperature())
+                    else:
+                        self.maybe(m, "top temperature", self.temperature()); self.maybe(m, "bottom temperature", self.temperature())
+                else:
+                    self.maybe(m, "potential mantle temperature", r.choice([-1, 1500]), 0.3)
+                ms.append(m)
+            out["temperature models"] = ms
+        if r.random() < 0.6:
+            ms = []
+            for _ in range(r.choice([1, 1, 2])):
+                name = r.choice(["uniform", "uniform", "smooth"])
+                m = {"model": name}
+                self.meta["models"].append(kind + "/C/" + name)
+                n = r.choice([1, 2])
+                comps = r.sample(range(0, 4), n)
+                m["compositions"] = comps
+                if name == "uniform":
+                    rng_keys(m)
+                    if r.random() < 0.8 or n != 1:
+                        m["fractions"] = [r.choice([1, 0.5, 0.25, 0.75]) for _ in comps]
+                else:
+                    if fault:
+                        self.maybe(m, "min distance fault center", r.choice([0, 5e3]), 0.3)
+                        m["side distance fault center"] = r.choice([20e3, 50e3, 100e3])
+                        m["center fractions"] = [r.choice([1, 0.5]) for _ in comps]
+                        m["side fractions"] = [r.choice([0, 0.25]) for _ in comps]
+                    else:
+                        m["min distance slab top"] = r.choice([0, 5e3])
+                        m["max distance slab top"] = r.choice([50e3, 100e3])
+                        m["top fractions"] = [r.choice([1, 0.5]) for _ in comps]
+                        m["bottom fractions"] = [r.choice([0, 0.25]) for _ in comps]
+                self.op(m, OPS)
+                ms.append(m)
+            out["composition models"] = ms
+        if r.random() < 0.3:
+            m = {"model": "uniform raw", "velocity": [r.choice([0, 1, -2, 0.5]) for _ in range(3)]}
+            rng_keys(m)
+            self.op(m)
+            self.meta["models"].append(kind + "/V/uniform raw")
+            out["velocity models"] = [m]
+        if r.random() < 0.3:
+            comps = r.sample(range(0, 3), r.choice([1, 2]))
+            m = {"model": "uniform", "compositions": comps, "grain sizes": [r.choice([-1, 0.5, 0.25]) for _ in comps]}
+            if r.random() < 0.6:
+                m["Euler angles z-x-z"] = [[r.choice([0, 10, 45, 90, 200]), r.choice([0, 20, 60, 90]), r.choice([0, 30, 120])] for _ in comps]
+            else:
+                m["rotation matrices"] = [[[1, 0, 0], [0, 0, -1], [0, 1, 0]] if r.random() < 0.5 else [[0, 1, 0], [-1, 0, 0], [0, 0, 1]] for _ in comps]
+            rng_keys(m)
+            self.meta["models"].append(kind + "/G/uniform")
+            out["grains models"] = [m]
+        return out
+
+    def segments(self, kind, nseg, with_models):
+        r = self.rng
+        segs = []
+        for i in range(nseg):
+            a0 = r.choice([10, 20, 30, 45, 60, 80, 90, 100])
+            a1 = a0 if r.random() < 0.5 else r.choice([10, 30, 45, 60, 70, 90])
+            t0 = r.choice([50e3, 100e3, 150e3])
+            sg = {"length": r.choice([100e3, 200e3, 300e3, 150e3]),
+                  "thickness": [t0] if r.random() < 0.5 else [t0, r.choice([50e3, 100e3, 200e3])],
+                  "angle": [a0] if a0 == a1 and r.random() < 0.7 else [a0, a1]}
+            if r.random() < 0.3 and kind != "fault":
+                tt = r.choice([0, 10e3, -10e3, 25e3])
+                sg["top truncation"] = [tt] if r.random() < 0.5 else [tt, r.choice([0, 10e3])]
+            if with_models and r.random() < 0.4:
+                sg.update(self.line_models(kind, "segment"))
+            segs.append(sg)
+        return segs
+
+    def line(self, kind, c=None, rad=None):
+        r = self.rng
+        c = c or self.center()
+        rad = rad or self.scale()
+        st = self.step()
+        npts = r.choice([2, 2, 3, 4, 5])
+        az = r.uniform(0, 2 * math.pi)
+        # polyline with bends of at most ~50 degrees
+        pts = []
+        x, y = c[0] - rad * math.cos(az), c[1] - rad * math.sin(az)
+        steplen = 2 * rad / (npts - 1)
+        for i in range(npts):
+            pts.append([round(x / st) * st, round(y / st) * st])
+            az += r.uniform(-0.8, 0.8) if i > 0 else 0
+            x += steplen * math.cos(az); y += steplen * math.sin(az)
+        if self.spherical:
+            pts = [[max(-359, min(359, p[0])), max(-80, min(80, p[1]))] for p in pts]
+        pts = [[int(v) if float(v).is_integer() else v for v in p] for p in pts]
+        out = []
+        for p in pts:
+            if not out or out[-1] != p:
+                out.append(p)
+        if len(out) < 2:
+            return self.line(kind)
+        pts = out
+        side = r.choice([-1, 1])
+        nx, ny = -(pts[-1][1] - pts[0][1]), (pts[-1][0] - pts[0][0])
+        nn = math.hypot(nx, ny) or 1.0
+        dip = [round((c[0] + side * rad * nx / nn) / st) * st, round((c[1] + side * rad * ny / nn) / st) * st]
+        dip = [int(v) if float(v).is_integer() else v for v in dip]
+        f = {"model": kind, "coordinates": pts, "dip point": dip}
+        self.maybe(f, "name", "l%d" % len(self.meta["features"]), 0.9)
+        self.maybe(f, "tag", r.choice(["", "slab", kind]), 0.3)
+        self.maybe(f, "min depth", r.choice([0, 0, 10e3, 50e3]), 0.4)
+        self.maybe(f, "max depth", r.choice([200e3, 400e3, 660e3]), 0.5)
+        nseg = r.choice([1, 1, 2, 3])
+        f.update(self.line_models(kind, "feature"))
+        f["segments"] = self.segments(kind, nseg, True)
+        if r.random() < 0.4:
+            secs = []
+            for ci in r.sample(range(len(pts)), r.randint(1, min(2, len(pts)))):
+                sec = {"coordinate": ci, "segments": self.segments(kind, nseg, True)}
+                if r.random() < 0.5:
+                    sec.update(self.line_models(kind, "section"))
+                secs.append(sec)
+            f["sections"] = secs
+        self.meta["features"].append(kind)
+        return f, c, rad
+
     # ---- features --------------------------------------------------------------------
     def area(self, kind, c=None, rad=None):
         r = self.rng
@@ -409,6 +553,8 @@ class WorldGen:
                 rad = rad0
             if kind == "plume":
                 f, c, rad = self.plume(c, rad)
+            elif kind in ("subducting plate", "fault"):
+                f, c, rad = self.line(kind, c, rad)
             else:
                 f, c, rad = self.area(kind, c, rad)
             feats.append(f)
@@ -441,6 +587,18 @@ class WorldGen:
         pos = []
         for f in world["features"]:
             cs = f["coordinates"]
+            if f["model"] in ("subducting plate", "fault"):
+                dp = f["dip point"]
+                for i, p in enumerate(cs):
+                    pos.append(list(p))
+                    if i + 1 < len(cs):
+                        q = cs[i + 1]
+                        for t in (0.25, 0.5, r.random()):
+                            m = [p[0] + t * (q[0] - p[0]), p[1] + t * (q[1] - p[1])]
+                            pos.append(m)
+                            for u in (0.05, 0.2, 0.5, r.random(), -0.1):
+                                pos.append([m[0] + u * (dp[0] - m[0]), m[1] + u * (dp[1] - m[1])])
+                continue
             if f["model"] == "plume":
                 for p in cs:
                     pos.append(list(p))
@@ -488,6 +646,8 @@ class WorldGen:
                     if isinstance(it, list) and it and isinstance(it[0], (int, float)):
                         ds.append(it[0])
         for f in world["features"]:
+            if "segments" in f:
+                ds.extend([10e3, 50e3, 75e3, 120e3, 200e3, 300e3])
             for key in ("min depth", "max depth"):
                 if key in f:
                     collect(f[key])
